@@ -178,6 +178,15 @@ impl Check for C17 {
             st.hit("probe:L_65535");
         }
         let mut buf: Vec<u8> = Vec::new();
+        // other connections on this receiver's thread (§3.9): a recycled buffer, neighbours
+        crate::recv::recycle(&mut buf, 0, sc);
+        let mut others = crate::recv::Others::new(sc);
+        if sc.recycled.is_some() {
+            st.hit("fault:recycled_buffer");
+        }
+        if !sc.neighbors.is_empty() {
+            st.hit("fault:interleaved_neighbours");
+        }
         let mut pos = 0usize;
         let mut caps = sc.events.iter();
         let mut last_was_partial_exact = false;
@@ -190,6 +199,7 @@ impl Check for C17 {
                 break;
             }
             let n = buf.len();
+            others.step(sc);
             let r = match guard(|| v2::Header::try_from(&buf[..]).map(|h| h.len())) {
                 Ok(r) => r,
                 Err(_) => {
@@ -319,6 +329,9 @@ impl Check for C17 {
         out
     }
 
+    fn interference(&self) -> bool {
+        true
+    }
     fn required_probes(&self, _tier: Tier) -> Vec<&'static str> {
         vec![
             "probe:partial_counts_judged",
